@@ -347,6 +347,9 @@ def bool_constraints(L, e, val):
     e = L.pv.inline(e)
     if e[0] == 'un' and e[1] == 'Not':
         return bool_constraints(L, e[2], 1 - val)
+    if e[0] == 'const' and e[1] in (0, 1):
+        # a bool temporary whose value is known on this path (`let ok = a && b;` compiled to branches that store true / false)
+        return [] if e[1] == val else [Lin.const(-1)]
     if e[0] == 'bin' and e[1] in CMP:
         op = e[1] if val else NEG[e[1]]
         return L.cmp_constraints(op, e[2], e[3])
